@@ -61,7 +61,7 @@ pub struct LoopLog {
 }
 impl CustomState<'_> for LoopLog {}
 
-/// Scripted operand: logs its id, then answers as told (0 = false, 1 = true, 2 = error).
+/// Scripted operand: logs its initialisation (-id) and its evaluation (id), then answers as told (0 = false, 1 = true, 2 = error).
 #[derive(Clone, Serialize)]
 pub struct Scripted {
     pub id: i64,
@@ -69,6 +69,12 @@ pub struct Scripted {
 }
 
 impl Condition<CondProblem> for Scripted {
+    /// the initialisation of an operand is logged as the negated id (every operand is initialised, once, before the evaluation)
+    fn init(&self, _problem: &CondProblem, state: &mut State<CondProblem>) -> ExecResult<()> {
+        state.borrow_mut::<EvalLog>().0.push(-self.id);
+        Ok(())
+    }
+
     fn evaluate(&self, _problem: &CondProblem, state: &mut State<CondProblem>) -> ExecResult<bool> {
         state.borrow_mut::<EvalLog>().0.push(self.id);
         match self.out {
